@@ -11,6 +11,20 @@ warnings.simplefilter('ignore')
 VERIF = pathlib.Path(__file__).resolve().parent.parent
 sys.path.insert(0, str(VERIF))
 
+NOTES = {
+ 'C01': 'numpy.ravel_multi_index / unravel_index taken as C-order with range errors (modelled by Ems.ravel / Ems.unravel); grid shapes given to the model come from the generator.',
+ 'C02': 'STRtree.query positions = array positions is an assumption checked on every case; UGRID centroids (no stored face coordinates) are only checked for membership in their cell.',
+ 'C03': 'numpy reshape / transpose on C-ordered data and xarray.DataArray.transpose are modelled by the named-array theory (Core/NDArray.lean); the model refuses colliding dimension names.',
+ 'C04': 'theorems hold for every intersects predicate and every hit order; the driver uses an exact rational point-in-polygon test that is compared with GEOS on every point.',
+ 'C05': 'xarray vectorised isel, Dataset.merge and pandas to_xarray are modelled as parameters with stated behaviour; only data variables are compared.',
+ 'C06': 'GEOS is_valid enters as a truth table (and is compared with an exact ring-validity test); unary_union / equals are GEOS on both sides of the geometry oracle; bounds are compared where every stored bound / node belongs to a kept polygon.',
+ 'C08': 'Partial: the per-variable netCDF files and open_mfdataset are exercised (results loaded fully), not modelled; the clip mask is taken as given (C07 proves it).',
+ 'C09': 'Partial: "can be saved and reopened as such" is runtime behaviour checked by the correspondence only; consistency of the clipped tables is an oracle check, polygon preservation and reference ranges are theorems.',
+ 'C15': 'Partial: byte formats are the libraries\' business; files are read back with independent readers and compared with the model\'s feature list; shapefile rings are compared up to rotation / direction.',
+ 'C18': 'Partial: metric lengths (PROJ) and GEOS constructive geometry are outside the model; coverage is proved in path-parameter space and validated with an exact rational clipper on lattice-aligned paths. One known finding (edge-running stretches reported twice).',
+ 'C19': 'Partial: rendering is matplotlib\'s; only the content of the PolyCollection / Quiver artists is compared.',
+}
+
 BASELINE = 'cd /repo && /venv/bin/python -m pytest -ra -q -p no:cacheprovider --timeout=900 --continue-on-collection-errors'
 
 
@@ -39,7 +53,7 @@ def main() -> None:
                     'the model is tied to /repo on every run by a correspondence run through the public API and by tables regenerated from live objects.')),
                 'design_ref': f'DESIGN.md section 6, {pid}',
             },
-            'level_note': getattr(mod, 'LEVEL_NOTE', 'Trusted: Lean kernel (axioms propext, Quot.sound, Classical.choice), the hand-written model, the harness (generators, canonicalisers, driver parser), numpy/xarray/shapely behaviour taken as parameters.'),
+            'level_note': getattr(mod, 'LEVEL_NOTE', NOTES.get(pid, '') + ' Trusted: Lean kernel (axioms propext, Quot.sound, Classical.choice), the hand-written model, the harness (generators, canonicalisers, driver parser), numpy/xarray/shapely behaviour taken as parameters.'),
             'technique': getattr(mod, 'TECHNIQUE', 'Lean 4 proof over a hand-written model + differential correspondence with the implementation'),
         })
     manifest = {
